@@ -107,8 +107,10 @@ LIBRARY = {
         'builtins.int': ['ValueError'], 'builtins.float': ['ValueError'],
         'builtins.open': ['FileNotFoundError', 'OSError'],
         'builtins.next': ['StopIteration'],            # refined: see engine min_yields
-        'method:index': ['ValueError'], 'method:encode': ['UnicodeEncodeError'],
-        'method:decode': ['UnicodeDecodeError'],
+        'method:index': ['ValueError'],
+        # strict coding only (the default): with errors='replace' / 'ignore' / ... (keyword or 2nd positional argument)
+        # neither str.encode nor bytes.decode can raise; decoding the result of a lenient encode with the same codec neither
+        'method:encode': ['UnicodeEncodeError'], 'method:decode': ['UnicodeDecodeError'],
         'sys.exit': ['SystemExit'], 'builtins.exit': ['SystemExit'],
         'random.sample': ['ValueError'],               # + TypeError when the population is a generator/set (py>=3.11)
         'random.randint': ['ValueError'], 'random.randrange': ['ValueError'],
@@ -182,6 +184,19 @@ NARROWED = [
     ('C07', 'str seed',
      'cnfshuffle parses --seed with type=str; a truthiness guard on a str skips only the empty string, '
      'which is not an integer seed (outside the property); for type=int it skips 0 (D01).'),
+    ('C07', 'argparse ordering (ASSUMED library fact)',
+     'ArgumentParser.parse_args consumes argv left to right; a sub-parsers action takes everything after the sub-command '
+     'name, and options of the main parser are not recognised there.  Hence, when --seed is given, the Action of the '
+     'main parser\'s seed option runs before every Action registered on a sub-parser (sub-command or nested parser '
+     'run from such an action).  The analysis therefore counts `P.parse_args(..)` as seeding-before-any-RNG-use iff '
+     '(a) an Action class registered on the SAME parser object P (identified by its allocation site, tracked through '
+     'tuple returns and parameters) has a __call__ that calls random.seed(<the parsed value parameter>) on every '
+     'normal path, and (b) no other Action registered on P itself, or on a parser of unknown identity, may use the '
+     'RNG (in the context of this entry point, incl. nested parse_args) and no type= validator does.  Actions '
+     'registered on results of add_parser(..) or on other parser objects do not count against (b).  A parser '
+     'received as a parameter is decided by the caller (conditional typestate if:<param>).  With (a),(b) the later '
+     '`random.seed(args.seed)` in cli() is redundant for dominance: removing it keeps the obligation discharged '
+     '(the formula RNG use is still dominated by the action); its guard is still checked for exactness (D01).'),
     ('C07', 'nondeterministic sources',
      'the list LIBRARY[nondet] plus default object repr reaching str/format/%/f-string/print and iteration '
      'over a syntactically visible set; nondeterminism inside networkx/pydot is covered by the bounded runs only.'),
